@@ -1,5 +1,6 @@
 import AvoVerif.Drv.Common
 import AvoVerif.Model.Tags
+import AvoVerif.Model.TagsHist
 import AvoVerif.Oracle.TagChars
 /-!
 Protocol handlers of C14.
@@ -189,6 +190,95 @@ def ctxRun (exprs : List Str) : Nat × Constraints :=
       let cand := st.2 ++ [c]
       if validate tc cand then (st.1, cand) else (st.1 + 1, st.2)) (0, [])
 
+
+/-! ### histories (`hist`, `accept-hist`): Model/TagsHist.lean
+
+Operation tokens: `N.i.r` / `N.i.h` (bare / hand-built `ir.File`) and `N.i.c` / `N.i.g` (file of a `build.Context`, changed through
+its methods / through the package-level functions of avo/build) allocate slot `i`; `S.i=<formula>` set; `A.i=<constraint>` append; `X.i=<hex text>` parse and append; `R.i.j=<constraint>` and
+`T.i.j.k.l=<hex term>` replace in place; `C.i` clear; `P.i.a` / `P.i.s` / `P.i.f` print (assembly printer, stub
+printer, `buildtags.Format`); `D.i` drop. -/
+
+def decOp (t : String) : Option Op := do
+  let (hd, pl) ← match t.splitOn "=" with
+    | [a] => some (a, none)
+    | [a, b] => some (a, some b)
+    | _ => none
+  match hd.splitOn ".", pl with
+  | ["N", i, "r"], none => some (.new (← i.toNat?) .raw)
+  | ["N", i, "h"], none => some (.new (← i.toNat?) .raw)
+  | ["N", i, "c"], none => some (.new (← i.toNat?) .ctx)
+  | ["N", i, "g"], none => some (.new (← i.toNat?) .ctx)
+  | ["S", i], some f => some (.set (← i.toNat?) (← decFormula f))
+  | ["A", i], some c => some (.add (← i.toNat?) (← decConstraint c))
+  | ["X", i], some e => some (.addExpr (← i.toNat?) (← decTerm e))
+  | ["R", i, j], some c => some (.replace (← i.toNat?) (← j.toNat?) (← decConstraint c))
+  | ["T", i, j, k, l], some t => some (.setTerm (← i.toNat?) (← j.toNat?) (← k.toNat?) (← l.toNat?) (← decTerm t))
+  | ["C", i], none => some (.clear (← i.toNat?))
+  | ["P", i, "a"], none => some (.print (← i.toNat?) .asm)
+  | ["P", i, "s"], none => some (.print (← i.toNat?) .stub)
+  | ["P", i, "f"], none => some (.print (← i.toNat?) .fmt)
+  | ["D", i], none => some (.drop (← i.toNat?))
+  | _, _ => none
+
+/-- What one print of a history shows: the class of the header, avo's
+`Evaluate` and the toolchain's decision on the header per assignment, and the
+constraints the file holds at that moment. -/
+def printTok (names : List Str) : Option PrintOut → String
+  | none => "nofile"
+  | some r =>
+    let cs := encFormula r.cs
+    if !validate tc r.cs then s!"inv:{cs}" else
+    let ev := bitsOf names (fun v => some (evaluate tc v r.cs))
+    match r.hdr with
+    | none => s!"ERR:{ev}:{bitsOf names (fun _ => none)}:{cs}"
+    | some h =>
+      let cls := match h with | .none => "none" | .goBuild _ => "lines"
+      s!"{cls}:{ev}:{bitsOf names (fun v => toolchainSelects v h)}:{cs}"
+
+def histSlots : Nat := 4
+
+def histLine (names : List Str) (ops : List Op) : String :=
+  let outs := (run tc Heap.empty ops).map (printTok names)
+  let h := heapAfter tc Heap.empty ops
+  let errs := (List.range histSlots).map (fun i => match h i with | some f => toString f.errs | none => "-")
+  joinSp (outs ++ ["errs=" ++ ",".intercalate errs])
+
+/-- One print of an `accept-hist` line: `P.i.k <formula> ev=… st=… tc=… mf=…`. -/
+def obsTok : List String → Option ((String × Obs) × List String)
+  | p :: _cs :: ev :: st :: tcb :: mf :: rest => do
+    let st ← kv "st" st
+    let mf ← bitsOf? (← kv "mf" mf)
+    let o : Obs := {
+      fmtErr := st.startsWith "format-"
+      rejected := st.startsWith "rejected"
+      ev := ← plainBits? (← kv "ev" ev)
+      tcb := ← bitsOf? (← kv "tc" tcb)
+      mg := mf, ma := mf, rt := [] }
+    if st != "ok" && !o.fmtErr && !o.rejected then none else
+    some ((p, o), rest)
+  | _ => none
+
+/-- The property along a history (`acceptHist`, theorem `acceptHist_sound`): on
+every print, the header that print produced means to the toolchain what the
+constraints the file holds at that moment mean to avo. -/
+def acceptHistLine (obs : List (String × Obs)) : String :=
+  if acceptHist (obs.map (·.2)) then "ok" else
+  match firstBadPrint (obs.map (·.2)) with
+  | none => "bad-hist"
+  | some n =>
+    match obs[n]? with
+    | none => "bad-hist"
+    | some (p, o) =>
+      let why :=
+        if o.fmtErr then "format-error"
+        else if o.rejected then "toolchain-rejects-header"
+        else match firstDiff o.ev o.tcb with
+          | some i => s!"stale-or-wrong-header assignment={i}"
+          | none => match firstDiff o.ev o.mg with
+            | some i => s!"printed-file-selected-differently assignment={i}"
+            | none => "unknown"
+      s!"bad-hist print={n} {p} {why}"
+
 def handle : Handler
   | ["syntax"] => some "plus=0 go=1"
   | "tags" :: f :: rest => do
@@ -243,6 +333,16 @@ def handle : Handler
     let l ← decTerm l
     let (names, _) ← tagUniverse rest
     some (exprLine names (parsePlusLine tc l))
+  | "hist" :: rest => do
+    let (names, rest) ← tagUniverse rest
+    let (ops, _) ← listOf strTok rest
+    let ops ← ops.mapM decOp
+    some (histLine names ops)
+  | "accept-hist" :: rest => do
+    let (_, rest) ← tagUniverse rest
+    let (_ops, rest) ← listOf strTok rest
+    let (obs, _) ← listOf obsTok rest
+    some (acceptHistLine obs)
   | "ctx" :: rest => do
     let (es, _) ← listOf strTok rest
     let es ← es.mapM decTerm
@@ -265,6 +365,6 @@ def handleRanges : Handler
 def handlers : List (String × Handler) :=
   ("accept-tagranges", handleRanges) ::
   ["syntax", "tags", "tags-ignore", "accept-tags", "accept-tags-ignore", "term", "accept-term", "accept-badutf8", "accept-ctx", "accept-parse",
-   "parse", "parseopt", "tcline", "ctx"].map (·, handle)
+   "hist", "accept-hist", "parse", "parseopt", "tcline", "ctx"].map (·, handle)
 
 end Avo.Drv.C14
